@@ -261,6 +261,34 @@ func TestC12Pairs(t *testing.T) {
 			}
 		}
 	}
+	// ... also when the tail of the chain is written as literals (what could be
+	// worked out while the script is prepared is still worked out left to right)
+	fvars["tiny"] = lang.Float(0.001)
+	fvars["big53"] = lang.Float(9007199254740992)
+	for _, x := range []string{"big", "big53", "p", "tiny", "top", "half"} {
+		for _, cs := range [][2]int64{{1, 1}, {1, 3}, {2, 5}, {1, 2}} {
+			for _, o1 := range []string{"+", "-", "*", "/"} {
+				for _, o2 := range []string{"+", "-", "*", "/"} {
+					if opLevel[o1] < opLevel[o2] {
+						continue // x o1 (c1 o2 c2): nothing to regroup
+					}
+					tree := lang.Binary{Op: o2, L: lang.Binary{Op: o1, L: lang.Name{N: x}, R: lang.Lit{V: lang.Int(cs[0])}}, R: lang.Lit{V: lang.Int(cs[1])}}
+					m := lang.NewMachine()
+					for k, v := range fvars {
+						m.Globals[k] = v
+					}
+					exp := expectFromModel(m, &lang.Program{Stmts: []lang.Stmt{lang.Return{X: tree}}})
+					for _, noOpt := range []bool{false, true} {
+						mc := &Case{Prop: "C12", Kind: "meaning", Script: fmt.Sprintf("return %s %s %d %s %d;", x, o1, cs[0], o2, cs[1]), Vars: fvars, Exp: exp, HostVals: map[string]lang.Value{}, NoOpt: noOpt}
+						if err := runMeaning(mc); err != nil {
+							violation(t, "C12", mc, "%v", err)
+						}
+					}
+					col.Class("float-chain-with-literal-tail-computed")
+				}
+			}
+		}
+	}
 	for _, p := range c12PreOps {
 		for _, o := range c12BinOps {
 			check("prefix-infix", lang.Binary{Op: o, L: lang.Unary{Op: p, X: a}, R: b}, p+"a "+o+" b")
